@@ -180,8 +180,17 @@ func (w *world) execClient(line string) string {
 			return "ok " + hexs(data)
 		case "cfm":
 			sb := digest.NewSetBuilder(0)
-			for _, s := range secs[1:] {
-				d, err := mk(s[0], s[1])
+			for _, sec := range secs[1:] {
+				tag, hash, size, err := cfmEntry(sec)
+				if err != nil {
+					return "harness-error " + err.Error()
+				}
+				fn, err := tagFunction(tag)
+				if err != nil {
+					return "harness-error " + err.Error()
+				}
+				n, _ := strconv.ParseInt(size, 10, 64)
+				d, err := fn.NewDigest(hash, n)
 				if err != nil {
 					return "harness-error " + err.Error()
 				}
@@ -193,10 +202,53 @@ func (w *world) execClient(line string) string {
 			}
 			var keys []string
 			for _, d := range missing.Items() {
-				keys = append(keys, keyOf(d))
+				keys = append(keys, digestTag(d)+"/"+keyOf(d))
 			}
 			return strings.TrimSpace("ok " + strings.Join(keys, " "))
 		}
 		return fmt.Sprintf("harness-error unknown client op %q", h[0])
 	})
+}
+
+// cfm entries: "<hash> <size>" (SHA-256, empty instance name) or "<function>.<instance|-> <hash> <size>".
+func cfmEntry(sec []string) (tag, hash, size string, err error) {
+	switch len(sec) {
+	case 2:
+		return "sha256.-", sec[0], sec[1], nil
+	case 3:
+		return sec[0], sec[1], sec[2], nil
+	}
+	return "", "", "", fmt.Errorf("bad cfm entry %v", sec)
+}
+
+var functionEnums = map[string]remoteexecution.DigestFunction_Value{
+	"sha256": remoteexecution.DigestFunction_SHA256,
+	"md5":    remoteexecution.DigestFunction_MD5,
+	"sha1":   remoteexecution.DigestFunction_SHA1,
+}
+
+func tagFunction(tag string) (digest.Function, error) {
+	name, inst, _ := strings.Cut(tag, ".")
+	enum, ok := functionEnums[name]
+	if !ok {
+		return digest.Function{}, fmt.Errorf("unknown digest function in %q", tag)
+	}
+	if inst == "-" {
+		inst = ""
+	}
+	in, err := digest.NewInstanceName(strings.ReplaceAll(inst, "_", "/"))
+	if err != nil {
+		return digest.Function{}, err
+	}
+	return in.GetDigestFunction(enum, 0)
+}
+
+func digestTag(d digest.Digest) string {
+	fn := d.GetDigestFunction()
+	name := strings.ToLower(fn.GetEnumValue().String())
+	inst := strings.ReplaceAll(fn.GetInstanceName().String(), "/", "_")
+	if inst == "" {
+		inst = "-"
+	}
+	return name + "." + inst
 }
